@@ -87,7 +87,11 @@ func c08Body(t *testing.T, s *sim.Scn, o *sim.Outcome) {
 		switch op.K {
 		case "produce":
 			time.Sleep(time.Second)
-			if op.A%2 == 1 {
+			if op.A%4 == 3 {
+				allEmpty = false
+				r.exec(sim.Op{K: "same", A: op.B}, -1)
+				o.Count("identical-tx-list-batches", 1)
+			} else if op.A%2 == 1 {
 				allEmpty = false
 				r.exec(sim.Op{K: "tx", A: op.B}, -1)
 				r.exec(sim.Op{K: "reap"}, -1)
@@ -146,12 +150,19 @@ func c08Gen(r *rand.Rand, tier string) *sim.Scn {
 	}
 	mix := r.IntN(3) // 0 all-empty, 1 mixed, 2 all non-empty
 	pOut := r.IntN(50)
+	pSame := 0
+	if r.IntN(3) == 0 {
+		pSame = 20 + r.IntN(60)
+	}
 	for i := 0; i < n; i++ {
 		switch x := r.IntN(100); {
 		case x < 50:
 			a := int64(0)
 			if mix == 2 || (mix == 1 && r.IntN(2) == 0) {
 				a = 1
+				if r.IntN(100) < pSame {
+					a = 3
+				}
 			}
 			s.Ops = append(s.Ops, sim.Op{K: "produce", A: a, B: r.Int64N(3)})
 		case x < 85:
